@@ -19,5 +19,5 @@ def curve_tables(ctx, mods=None, only_ops=None, secp=False, name="CurveTable"):
 def run(ctx):
     constants.check_constants(ctx, ("bls", "bn"))
     # full size: every module x base / twist group against the abstract group Z_r x Z_l (BigNat)
-    grouptrace.run_traces(ctx, [(m, g) for m in grouptrace.SPECS for g in (1, 2)])
+    grouptrace.run_traces(ctx, [(m, g) for m in grouptrace.SPECS for g in (1, 2, 12)])
     curve_tables(ctx, only_ops={"add", "double", "neg", "mul", "eq", "onc", "isinf", "norm", "twist", "twadd"})
